@@ -165,9 +165,29 @@ def run(rec, tier, seed):
     rec.exhaustive.append(f"{len(CORES)} cores wrapped in every sequence of <= {depth} of {len(SHELLS)} structure shells")
     n = 2500 if quick else 60000
     campaign.parallel(rec, _shard_hyp, [(seed * 1000 + i, n) for i in range(ns)])
+    if not quick:
+        campaign.atheris_tier(rec, "C04", 30000, seed, procs=8, max_len=256)
 
 
 def replay(case):
     ast = case["ast"]
     progs.validate(ast)
     return check_ast(ast)[0]
+
+
+def fuzz_targets():
+    found = []
+
+    def t(p):
+        r, text, k = check_ast(p)
+        if r:
+            found.append((r[0], {"ast": p}, r[1]))
+
+    fz = campaign.hyp_fuzz_target(t, {"p": progs.program_strategy(4, hot=True, comments=True)})
+
+    def target(data):
+        del found[:]
+        fz(data)
+        return list(found)
+
+    return {"generated-ast": target}
